@@ -40,7 +40,7 @@ def _finding_of(tree, node_id):
     for i, (parent, child) in enumerate(chain):
         if parent["k"] not in ("d", "c"):
             continue
-        if child["name"].endswith("\\") and i < len(chain) - 1:
+        if child["name"] is not None and child["name"].endswith("\\") and i < len(chain) - 1:
             return "KF-C13-a"
     return None
 
@@ -51,6 +51,8 @@ def _spellable(tree, node_id):
     chain = _path_nodes(tree, node_id)
     for i, (parent, child) in enumerate(chain):
         if parent["k"] in ("d", "c"):
+            if child["name"] is None:
+                continue   # an unnamed field is spelled by the empty step (05c4adc)
             if child["name"] == "" or (child["name"].endswith("\\") and i < len(chain) - 1):
                 return False
     return True
@@ -150,6 +152,9 @@ class C13(Property):
         "Flatland.Path.Lemmas.pyInt_natStr",
         # k4 (Proofs/C13Unspellable): KF-C13-b at the first level, for every tree
         "Flatland.C13.Proofs.fqName_empty_top",
+        "Flatland.C13.Proofs.find_slash2",
+        "Flatland.C13.Proofs.find_fq_unnamed",
+        "Flatland.C13.Proofs.tokenize_slash2",
         "Flatland.C13.Proofs.C13_empty_name_fails_top_partial",
     ]
     extra_proof_modules = ["Proofs.C13Unspellable"]
@@ -474,10 +479,10 @@ class C13(Property):
             if rec["how"] == "pop":
                 # List.pop() clears the old slot's parent but leaves the member below that slot: the chain ends in
                 # the slot, so fq_name() starts with the member's own name and find() starts at the slot
+                # (an unnamed member is the empty step since 05c4adc — '//' — where fq_name() used to raise
+                # AttributeError; derived from _path_segment / fq_name as they are now)
                 name = rec["node"]["name"]
-                if name is None:
-                    return "KF-C13-d" if failure["fq_name"] == {"error": "AttributeError"} and failure["observed"] is None else None
-                fq = "/" + "/".join([cm.esc_name(name)] + rel)
+                fq = cm.fq_of_segments([cm.esc_name(name)] + rel)
                 steps = cm.ref_read(fq)
                 predicted = ["not-an-element"] if not steps else "NotImplementedError"
             elif rec["how"] == "replace":
@@ -486,7 +491,7 @@ class C13(Property):
                 by_segs = cm.doc_segments(case["tree"], rec["by"])
                 if by_segs is None:
                     return None
-                fq = "/" + "/".join(by_segs + rel)
+                fq = cm.fq_of_segments(by_segs + rel)
                 kind, val = cm.ref_eval(case["tree"], fq)
                 predicted = [val] if kind == "ok" else val
             else:
@@ -494,7 +499,7 @@ class C13(Property):
                 lst_segs = cm.doc_segments(case["tree"], rec["list"])
                 if lst_segs is None:
                     return None
-                fq = "/" + "/".join(lst_segs + [str(rec["old"])] + rel)
+                fq = cm.fq_of_segments(lst_segs + [str(rec["old"])] + rel)
                 kind, val = cm.ref_eval(case["tree"], fq)
                 predicted = [val] if kind == "ok" else val
             if failure["fq_name"] == cm.enc(fq) and failure["observed"] == predicted:
@@ -529,6 +534,18 @@ class C13(Property):
             t.append("in-class:%s" % f)
         if fids == {None}:
             t.append("all-addressable")
+        for n in nodes:
+            ch = _path_nodes(case["tree"], n["id"])
+            un = [i for i, (par, c) in enumerate(ch) if par["k"] in ("d", "c") and c["name"] is None]
+            if un:
+                t.append("unnamed-field:on-the-way" if un[-1] < len(ch) - 1 else "unnamed-field:subject")
+                t.append("unnamed-field:depth=%d" % min(un[0] + 1, 4))
+                if any(par["k"] == "l" for par, c in ch):
+                    t.append("unnamed-field:below-a-list-member")
+        for s_id in case["starts"]:
+            ch = _path_nodes(case["tree"], s_id) if any(x["id"] == s_id for x in nodes) else []
+            if any(par["k"] in ("d", "c") and c["name"] is None for par, c in ch):
+                t.append("unnamed-field:start")
         # territory of find_fq_iff: spellable positions (no '' / non-final trailing-backslash Dict names on the way)
         for n in nodes:
             f = _finding_of(case["tree"], n["id"])
